@@ -22,8 +22,8 @@ Suites (all hooked into tools/props/C03.py::run)
              measurement symbols (RX/RY/RZ/U3/CRX), executed twice
   search     (a) M.on_qubits / Circuit.on_qubits / StarConnectivityRouter keep every qubit's flip
              probabilities (key bitflip:on_qubits:*); (b) unpatched seeded sampler: marginals of the
-             reported bits against the Born marginal pushed through the channel (6 sigma), exact p in
-             {0,1}, consistency of samples / frequencies / registers / probabilities
+             reported bits against the Born marginal pushed through the channel (binomial tail 1e-9),
+             exact p in {0,1}, consistency of samples / frequencies / registers / probabilities
 """
 from __future__ import annotations
 
@@ -433,7 +433,7 @@ def check_star_router(targets, f0, f1, seed):
 def check_noisy_sampler(n, regs, forms, psi, dm, nshots, seed, first):
     """unpatched seeded RNG: consistency of all views of the noisy result, exact behaviour for
     p in {0, 1}, and the marginal of every reported bit against the Born marginal pushed through
-    the channel [[1-p0, p0], [p1, 1-p1]] (6 sigma)."""
+    the channel [[1-p0, p0], [p1, 1-p1]] (exact binomial tail below 1e-9)."""
     nb = NumpyBackend()
     flat = [q for r in regs for q in r]
     k = len(flat)
@@ -489,11 +489,25 @@ def check_noisy_sampler(n, regs, forms, psi, dm, nshots, seed, first):
     for j in range(k):
         q1 = sum(marg[x] for x in range(2 ** k) if (x >> (k - 1 - j)) & 1)
         want = (1 - q1) * p0[j] + q1 * (1 - p1[j])
-        got = float(rows[:, j].mean())
-        sd = (max(want * (1 - want), 0.0) / nshots) ** 0.5
-        if abs(got - want) > 6 * sd + 1e-12:
-            return "qubit %d (column %d): reported ones %.4f, Born marginal through the channel gives %.4f (sd %.4f)" % (flat[j], j, got, want, sd)
+        ones = int(rows[:, j].sum())
+        tail = binom_two_sided(nshots, min(max(want, 0.0), 1.0), ones)
+        if tail < 1e-9:
+            return "qubit %d (column %d): %d ones in %d shots; the Born marginal through the channel gives probability %.4f per shot (binomial tail %.1e)" % (
+                flat[j], j, ones, nshots, want, tail)
     return None
+
+
+def binom_two_sided(n, p, k):
+    """exact min(P(X <= k), P(X >= k)) for X ~ Binomial(n, p)."""
+    import math
+
+    if p <= 1e-15:
+        return 1.0 if k == 0 else 0.0
+    if p >= 1 - 1e-15:
+        return 1.0 if k == n else 0.0
+    logs = [math.lgamma(n + 1) - math.lgamma(i + 1) - math.lgamma(n - i + 1) + i * math.log(p) + (n - i) * math.log(1 - p) for i in range(n + 1)]
+    pm = [math.exp(x) for x in logs]
+    return min(sum(pm[: k + 1]), sum(pm[k:]))
 '''
 
 
@@ -1344,4 +1358,4 @@ def run_suites(ctx):
         "with noisy terminal registers; MeasurementOutcomes with _frequencies only (all layouts n<=3) and frequencies_to_binary keys; "
         "execute_circuit_repeated with RX/RY/RZ/U3/CRX gates whose parameters are integer polynomials in up to 3 symbols of several collapsing "
         "measurements, executed twice; searches: on_qubits / Circuit.on_qubits / StarConnectivityRouter keep flip probabilities, seeded real "
-        "sampler against the channel-pushed Born marginal (6 sigma)")
+        "sampler against the channel-pushed Born marginal (exact binomial tail < 1e-9)")
